@@ -20,6 +20,8 @@ import ast
 import sys
 from pathlib import Path
 
+sys.path.insert(0, str(Path(__file__).resolve().parent))
+
 
 class Reject(Exception):
     pass
@@ -42,7 +44,11 @@ SPEC = [
     ("docx_text.py", ["flatten_text"]),
     ("bullets_and_numbering.py", ["_increment_list_counter"]),
     ("docx_text.py", ["_get_elem_depth"]),
+    ("attribute_register.py", ["_CONTENT_TAGS", "_is_content", "has_content"]),
+    ("merge_runs.py", ["_MERGEABLE_TAGS", "_is_mergeable", "_elem_key", "_is_text_or_text_math"]),
     ("iterators.py", ["is_tbl", "is_tr", "is_tc"]),
+    ("namespace.py", ["qn"]),
+    ("text_runs.py", ["_gather_sub_vals", "gather_Pr", "get_pStyle"]),
 ]
 
 EXN = {"ValueError", "KeyError", "IndexError", "TypeError", "AttributeError", "StopIteration"}
@@ -50,9 +56,13 @@ KNOWN_GLOBALS = {"ascii_lowercase": "ascii_lowercase"}
 BUILTINS = {"divmod": ("py_divmod", 2), "len": ("py_len", 1), "enumerate": ("py_enumerate", 1),
             "reversed": ("py_reversed", 1), "list": ("py_list", 1), "tuple": ("py_tuple", 1)}
 # calls on lxml elements, modelled as reads of the element object (VObj "Element"): trusted mapping
-EXTERNAL = {"get_prefixed_tag": "ptag"}
+EXTERNAL = {"get_prefixed_tag": "ptag", "get_localname": "localname"}
+# functions of other modules that are NOT translated: they become explicit function parameters
+# `ext_<name>` of every translated function that (transitively) calls them
+EXTERNAL_FN = {"get_html_formatting": 2, "find_parent_by_qn": 2}
 METHODS = {("join", 1): "py_join", ("replace", 2): "py_replace", ("upper", 0): "py_upper",
-           ("split", 0): "py_split_ws"}
+           ("split", 0): "py_split_ws", ("get", 1): "py_dict_get", ("get", 2): "py_dict_get2",
+           ("split", 1): "py_split_on", ("iterfind", 1): "py_iterfind"}
 CMP = {ast.Lt: "py_lt", ast.Gt: "py_gt", ast.LtE: "py_le", ast.GtE: "py_ge", ast.Eq: "py_eq",
        ast.NotEq: "py_ne"}
 BIN = {ast.Add: "py_add", ast.Sub: "py_sub", ast.Mult: "py_mul"}
@@ -75,6 +85,9 @@ class Fn:
         self.tr, self.qual, self.node = tr, qual, node
         self.tmp = 0
         self.local_fns = {}      # nested function name -> {"qual", "params", "defaults", "fuel"}
+        self.externals = set()   # untranslated functions called (directly or through translated callees)
+        self.setlocals = {}      # local names bound to a set display of constants
+        self.loop_tails = []     # what `continue` means in the innermost loop being translated
         self.params = [a.arg for a in node.args.args]
         if node.args.vararg or node.args.kwarg or node.args.kwonlyargs or node.args.posonlyargs:
             die(node, "only plain positional parameters are translated")
@@ -126,6 +139,7 @@ class Fn:
                 inner.local_fns[st.name] = info
                 self.local_fns[st.name] = info
                 self.inner_text.append(inner.emit())
+                info["exts"] = inner.ext_list
         self.needs_fuel = self.recursive or self.has_while or self.calls_fuelled or \
             any(i["fuel"] for i in self.local_fns.values())
 
@@ -226,7 +240,7 @@ class Fn:
                     walk(st.body)
                 elif isinstance(st, ast.With):
                     walk(st.body)
-                elif isinstance(st, (ast.Return, ast.Raise, ast.Pass, ast.FunctionDef)):
+                elif isinstance(st, (ast.Return, ast.Raise, ast.Pass, ast.FunctionDef, ast.Continue)):
                     pass
                 else:
                     die(st, f"unsupported statement {type(st).__name__}")
@@ -238,7 +252,7 @@ class Fn:
         if not stmts:
             return False
         last = stmts[-1]
-        if isinstance(last, (ast.Return, ast.Raise)):
+        if isinstance(last, (ast.Return, ast.Raise, ast.Continue)):
             return True
         if isinstance(last, ast.If) and last.orelse:
             return Fn.always_exits(last.body) and Fn.always_exits(last.orelse)
@@ -280,6 +294,27 @@ class Fn:
             if isinstance(e, ast.UnaryOp) and isinstance(e.op, ast.USub) and isinstance(e.operand, ast.Constant) \
                     and isinstance(e.operand.value, int) and not isinstance(e.operand.value, bool):
                 return f"(VInt (-{e.operand.value})%Z)"
+            if isinstance(e, ast.BoolOp) and len(e.values) >= 2:
+                # a or b / a and b: short-circuit, the value is one of the operands
+                acc = go(e.values[0])
+                for nxt in e.values[1:]:
+                    Ln, bn = self.ex(nxt, env, "r")
+                    t = self.fresh()
+                    keep = f"Ok {acc}"
+                    other = f"({' '.join(Ln)} Ok {bn})"
+                    if isinstance(e.op, ast.Or):
+                        L.append(self.bindline(mode, t, f"(if py_truth {acc} then {keep} else {other})"))
+                    else:
+                        L.append(self.bindline(mode, t, f"(if py_truth {acc} then {other} else {keep})"))
+                    acc = t
+                return acc
+            if isinstance(e, ast.IfExp):
+                c = go(e.test)
+                La, a = self.ex(e.body, env, "r")
+                Lb, b = self.ex(e.orelse, env, "r")
+                t = self.fresh()
+                L.append(self.bindline(mode, t, f"(if py_truth {c} then ({' '.join(La)} Ok {a}) else ({' '.join(Lb)} Ok {b}))"))
+                return t
             if isinstance(e, ast.UnaryOp) and isinstance(e.op, ast.Not):
                 a = go(e.operand)
                 t = self.fresh()
@@ -296,6 +331,25 @@ class Fn:
                     t = self.fresh()
                     L.append(self.bindline(mode, t, f"py_is_none {a}"))
                     if isinstance(op, ast.IsNot):
+                        t2 = self.fresh()
+                        L.append(self.bindline(mode, t2, f"py_not {t}"))
+                        return t2
+                    return t
+                if isinstance(op, (ast.In, ast.NotIn)) and isinstance(rhs, ast.Name) and rhs.id in self.tr.setconsts \
+                        and rhs.id not in env:
+                    a = go(e.left)
+                    t = self.fresh()
+                    L.append(self.bindline(mode, t, f"py_in_consts {a} {mangle(rhs.id)}"))
+                    if isinstance(op, ast.NotIn):
+                        t2 = self.fresh()
+                        L.append(self.bindline(mode, t2, f"py_not {t}"))
+                        return t2
+                    return t
+                if isinstance(op, (ast.In, ast.NotIn)) and isinstance(rhs, ast.Name) and rhs.id in self.setlocals:
+                    a = go(e.left)
+                    t = self.fresh()
+                    L.append(self.bindline(mode, t, f"py_in_consts {a} [{'; '.join(self.setlocals[rhs.id])}]"))
+                    if isinstance(op, ast.NotIn):
                         t2 = self.fresh()
                         L.append(self.bindline(mode, t2, f"py_not {t}"))
                         return t2
@@ -372,6 +426,14 @@ class Fn:
                         L.append(self.bindline(mode, t, f"py_add {acc} {a}"))
                         acc = t
                 return acc if acc is not None else "(VStr [])"
+            if isinstance(e, ast.Dict) and not e.keys:
+                return "(VDict None [])"
+            if isinstance(e, ast.Call) and isinstance(e.func, ast.Name) and e.func.id == "isinstance" and len(e.args) == 2 \
+                    and isinstance(e.args[1], ast.Name) and e.args[1].id == "str" and not e.keywords:
+                a = go(e.args[0])
+                t = self.fresh()
+                L.append(self.bindline(mode, t, f"py_is_str {a}"))
+                return t
             if isinstance(e, (ast.ListComp, ast.GeneratorExp)):
                 t = self.fresh()
                 L.append(self.bindline(mode, t, self.comp(e.generators, e.elt, env)))
@@ -411,6 +473,13 @@ class Fn:
                 if f.id == "next" and len(args) == 1:
                     L.append(self.bindline(mode, t, f"py_next {args[0]}"))
                     return t
+                if f.id == "next" and len(args) == 2:
+                    L.append(self.bindline(mode, t, f"py_next_default {args[0]} {args[1]}"))
+                    return t
+                if f.id in EXTERNAL_FN and EXTERNAL_FN[f.id] == len(args) and f.id not in env:
+                    self.externals.add(f.id)
+                    L.append(self.bindline(mode, t, f"ext_{f.id} {' '.join(args)}"))
+                    return t
                 if f.id in self.local_fns:
                     inner = self.local_fns[f.id]
                     dflt = inner["defaults"]
@@ -419,13 +488,23 @@ class Fn:
                         die(e, f"wrong number of arguments for {f.id}")
                     args = args + dflt[len(dflt) - (npar - len(args)):] if len(args) < npar else args
                     fuel = ("fuel' " if self.qual == inner["qual"] else "fuel ") if inner["fuel"] else ""
-                    L.append(self.bindline(mode, t, f"{mangle(inner['qual'])} {fuel}{' '.join(args)}"))
+                    exts = [f"ext_{x}" for x in inner.get("exts", [])]
+                    self.externals |= set(inner.get("exts", []))
+                    L.append(self.bindline(mode, t, f"{mangle(inner['qual'])} {fuel}{' '.join(exts + args)}"))
                     return t
                 if f.id == "str" and len(args) == 1:
                     L.append(self.bindline(mode, t, f"{self.tr.str_fn(self)} {args[0]}"))
                 elif f.id in BUILTINS and BUILTINS[f.id][1] == len(args):
                     L.append(self.bindline(mode, t, f"{BUILTINS[f.id][0]} {' '.join(args)}"))
                 elif f.id in self.tr.functions or f.id == self.node.name:
+                    # trailing parameters left out by the caller take their (constant) defaults
+                    if f.id in self.tr.defaults:
+                        npar, dfl = self.tr.defaults[f.id]
+                        missing = npar - len(args)
+                        if missing < 0 or missing > len(dfl):
+                            die(e, f"call of {f.id} with {len(args)} arguments")
+                        if missing:
+                            args = args + [go(d) for d in dfl[len(dfl) - missing:]]
                     L.append(self.bindline(mode, t, self.call_text(f.id, args)))
                 else:
                     die(e, f"call of {f.id} is not translated")
@@ -446,6 +525,9 @@ class Fn:
 
     def call_text(self, fname: str, args) -> str:
         """call of a translated function (fname is the python-level qualified name)"""
+        exts = self.tr.ext_params.get(fname, [])
+        self.externals |= set(exts)
+        args = [f"ext_{x}" for x in exts] + list(args)
         fuel = ""
         if fname == self.node.name and self.recursive:
             fuel = "fuel' "
@@ -508,6 +590,10 @@ class Fn:
             return cont()                      # docstring
         if isinstance(st, ast.Pass):
             return cont()
+        if isinstance(st, ast.Continue):
+            if not self.loop_tails:
+                die(st, "continue outside a loop")
+            return pad + self.loop_tails[-1]
         if isinstance(st, (ast.Assign, ast.AnnAssign)):
             if isinstance(st, ast.AnnAssign):
                 if st.value is None:
@@ -518,7 +604,17 @@ class Fn:
             if len(targets) != 1:
                 die(st, "chained assignment")
             t = targets[0]
-            L, a = self.ex(value, env, "o")
+            L, a = ([], "") if isinstance(value, ast.Set) else self.ex(value, env, "o")
+            if isinstance(t, ast.Name) and isinstance(value, ast.Set):
+                Ls = []
+                items = []
+                for x in value.elts:
+                    Lx, ax = self.ex(x, env, "o")
+                    if Lx or not ax.startswith("(V"):
+                        die(st, "a set display of constants only")
+                    items.append(ax)
+                self.setlocals[t.id] = items
+                return cont()
             if isinstance(t, ast.Name):
                 env.add(t.id)
                 return "\n".join([pad + l for l in L] + [pad + f"let {self.v(t.id)} := {a} in", cont()])
@@ -636,6 +732,35 @@ class Fn:
             return "\n".join([pad + l for l in L + pre] +
                              [pad + f"{self.lam_pat(av)} <~~ (if py_truth {c} then (", thn, pad + ") else (", els,
                               pad + ")) ;;;", cont()])
+        if isinstance(st, ast.With) and len(st.body) == 1 and isinstance(st.body[0], ast.For) \
+                and len(st.items) == 1 and st.items[0].optional_vars is None \
+                and isinstance(st.items[0].context_expr, ast.Call) and isinstance(st.items[0].context_expr.func, ast.Name) \
+                and st.items[0].context_expr.func.id == "suppress" and len(st.items[0].context_expr.args) == 1 \
+                and isinstance(st.items[0].context_expr.args[0], ast.Name) and st.items[0].context_expr.args[0].id in EXN:
+            # `with suppress(E): for x in ITER: BODY` where only the evaluation of ITER can raise E (checked:
+            # BODY contains no next(), no raise and no call of a translated function that may raise E): E ends
+            # the statement before the first iteration, so the variables are as they were
+            exn = st.items[0].context_expr.args[0].id
+            loop = st.body[0]
+            for n in ast.walk(ast.Module(body=loop.body, type_ignores=[])):
+                if isinstance(n, ast.Raise) or (isinstance(n, ast.Call) and isinstance(n.func, ast.Name) and (
+                        n.func.id == "next" or n.func.id in self.tr.may_raise.get(exn, set()))):
+                    die(st, f"the loop body under `with suppress({exn})` might raise {exn} itself")
+            av = self.assigned(loop.body)
+            pre = [f"let {self.pat([x])} := VNone in" for x in av if x not in env and x != "acc_"]
+            Li, it = self.ex(loop.iter, env, "r")
+            env_in = env | set(x for x in av if x != "acc_")
+            x = self.fresh()
+            env_body = set(env_in)
+            unpack = self.unpack_target(loop.target, x, env_body, "o")
+            self.loop_tails.append(f"Nx {self.pat(av)}")
+            body = self.block(loop.body, env_body, f"Nx {self.pat(av)}", ind + 2)
+            self.loop_tails.pop()
+            env = env_in
+            return "\n".join([pad + l for l in pre] +
+                             [pad + f"{self.lam_pat(av)} <~~ py_for_suppressed ({' '.join(Li)} Ok {it}) {exn} (fun {x} {self.lam_pat(av)} =>"] +
+                             [pad + "    " + l for l in unpack] +
+                             [body, pad + f"  ) {self.pat(av)} ;;;", cont()])
         if isinstance(st, ast.With):
             if len(st.items) != 1 or st.items[0].optional_vars is not None:
                 die(st, "with: only `with suppress(E):`")
@@ -671,7 +796,9 @@ class Fn:
             x = self.fresh()
             env_body = set(env_in)
             unpack = self.unpack_target(st.target, x, env_body, "o")
+            self.loop_tails.append(f"Nx {self.pat(av)}")
             body = self.block(st.body, env_body, f"Nx {self.pat(av)}", ind + 2)
+            self.loop_tails.pop()
             env = env_in
             return "\n".join([pad + l for l in L + pre] +
                              [pad + f"{self.lam_pat(av)} <~~ py_for {it} (fun {x} {self.lam_pat(av)} =>"] +
@@ -690,7 +817,9 @@ class Fn:
         end = "Rt acc_" if self.is_gen else self.ret_text("VNone", env)
         body = self.block(body_stmts, env, end, 2)
         name = mangle(self.qual)
-        params = " ".join(f"({self.v(p)} : pv)" for p in self.params)
+        self.ext_list = sorted(self.externals)
+        params = " ".join([f"(ext_{x} : {' -> '.join(['pv'] * EXTERNAL_FN[x])} -> res pv)" for x in self.ext_list] +
+                          [f"({self.v(p)} : pv)" for p in self.params])
         head = "(* %s%s%s *)\n" % (self.qual, " [generator: returns the list of yielded items]" if self.is_gen else "",
                                    " [returns (result, %s): the mutated parameter(s) are handed back]" %
                                    ", ".join(self.mutated_params) if self.mutated_params else "")
@@ -712,6 +841,10 @@ class Translator:
         self.properties = {}      # attribute name -> qualified name of the property
         self.str_classes = []     # classes with a translated __str__
         self.tags = self.read_tags()
+        self.setconsts = set()    # module constants that are sets of enum members (emitted as list pv)
+        self.ext_params = {}      # python function name -> externals it needs as leading parameters
+        self.defaults = {}        # function name -> (number of parameters, default expressions)
+        self.may_raise = {"StopIteration": set()}   # translated functions that contain next() / raise StopIteration
         self.str_dispatch_fuelled = False
         self.out = []
 
@@ -786,6 +919,16 @@ class Translator:
 
     def one(self, tree, mod, qual) -> str:
         node = self.find(tree, mod, qual)
+        if isinstance(node, ast.Assign) and not (isinstance(node.value, (ast.List, ast.Tuple, ast.Constant))):
+            # a set of Tags members: `{Tags.A, ...}` or `set(Tags) - {...}` (same reader as the table translator)
+            import gen_tables
+            try:
+                vals = [self.tags[n] for n in gen_tables.tags_set(node.value, self.tags)]
+            except gen_tables.Reject as ex:
+                raise Reject(f"{mod}: {qual}: {ex}")
+            self.setconsts.add(qual)
+            items = "; ".join(f"VStr {coq_str(v)}" for v in vals)
+            return f"Definition {mangle(qual)} : list pv :=\n  [{items}].\n"
         if isinstance(node, ast.Assign):
             return self.const(qual, node.value)
         is_method = "." in qual
@@ -799,6 +942,12 @@ class Translator:
                 die(node, "non-constant default")
         fn = Fn(self, qual, node, is_method)
         text = fn.emit()
+        if any(isinstance(n, ast.Call) and isinstance(n.func, ast.Name) and n.func.id == "next" for n in ast.walk(node)):
+            self.may_raise["StopIteration"].add(node.name)
+        self.ext_params[qual] = fn.ext_list
+        if not is_method:
+            self.ext_params[node.name] = fn.ext_list
+            self.defaults[node.name] = (len(node.args.args), list(node.args.defaults))
         self.fuelled[qual] = fn.needs_fuel
         if not is_method:
             self.functions[qual] = True
